@@ -305,3 +305,15 @@ Proof.
     reflexivity.
   - rewrite !zlen_app, L1, L2, zlen_drop by lia. lia.
 Qed.
+
+(* ---------- C20: only documented exceptions ---------- *)
+Theorem mutators_fail_cleanly b op e : model_step b op = Err e ->
+  match e with ValueError | IndexError | ReadError | TypeError | BsError | ByteAlignError => true | _ => false end = true.
+Proof.
+  rewrite step_refines. unfold spec_step, spec_range. intros H.
+  destruct op; cbn beta iota delta [bind] in H;
+    repeat (match type of H with
+            | context [if ?c then _ else _] => destruct c
+            end; cbn beta iota delta [bind] in H);
+    try discriminate; try (injection H as <-; reflexivity).
+Qed.
